@@ -145,12 +145,67 @@ rc::Gen<Case> gen() {
                    rc::gen::just(std::vector<Op>{}));
 }
 
+// Deep registers: HLL inputs with n / k = 2^13 (register values around 14..20, beyond 4 bits and beyond 15) united into a result of
+// lg_k 4, where at least one input has a larger lg_k than the result and is folded down. Same assertions as above, against the
+// RSE the library publishes for lg_k 4; the paired control is one lg_k 4 sketch of the whole stream.
+void prop_deep(const Case& cs) {
+  const target_hll_type ty = static_cast<target_hll_type>(cs.get("type", 0) % 3);
+  const bool a_first = cs.get("order", 0) & 1;
+  const int shape = static_cast<int>(cs.get("shape", 0) % 3);   // 0: a lg5, c lg4, union 5   1: a lg5, c lg5, union 4   2: a lg5, c lg4, union 4
+  const int lg_a = 5, lg_c = shape == 1 ? 5 : 4, lg_u = shape == 0 ? 5 : 4;
+  const uint64_t base = (vf::mix64(static_cast<uint64_t>(cs.get("base", 1)) + 77) >> 16) << 8;
+  const long T = vf::env_long("VF_TRIALS", 150);
+  const uint64_t n = 1ull << 18;
+  const double rse = std::max(std::fabs(hll_sketch::get_rel_err(true, true, 4, 1)), std::fabs(hll_sketch::get_rel_err(false, true, 4, 1)));
+  std::vector<Trial> trials;
+  for (long t = 0; t < T; ++t) {
+    Trial tr;
+    const uint64_t b = base + static_cast<uint64_t>(t) * (n + 17);
+    hll_sketch a(static_cast<uint8_t>(lg_a), ty), c(static_cast<uint8_t>(lg_c), ty), whole(4, ty);
+    for (uint64_t i = 0; i < n; ++i) { if (i < 2 * n / 3) a.update(b + i); if (i >= n / 3) c.update(b + i); whole.update(b + i); }
+    hll_union u(static_cast<uint8_t>(lg_u));
+    if (a_first) { u.update(a); u.update(c); } else { u.update(c); u.update(a); }
+    tr.est = u.get_estimate(); for (int s = 0; s < 3; ++s) { tr.lb[s] = u.get_lower_bound(s + 1); tr.ub[s] = u.get_upper_bound(s + 1); }
+    VF_CHECK(u.get_lg_config_k() == 4, "deep-result-lg-k", "union of lg_k " << lg_a << " and " << lg_c << " inputs with lg_max_k " << lg_u << " works at lg_k " << int(u.get_lg_config_k()));
+    tr.paired = whole.get_estimate();
+    trials.push_back(tr);
+  }
+  const double dn = static_cast<double>(n);
+  double mean = 0; for (auto& t : trials) mean += t.est / dn - 1.0; mean /= T;
+  double var = 0; for (auto& t : trials) { double r = t.est / dn - 1.0 - mean; var += r * r; } var /= std::max<long>(1, T - 1);
+  const double sd = std::sqrt(var);
+  std::ostringstream who; who << "hll deep union type=" << int(ty) << " shape=" << shape << " a_first=" << a_first << " n=" << n << " T=" << T;
+  VF_CHECK(std::fabs(mean) <= 0.15 * rse + 5.0 * rse / std::sqrt(static_cast<double>(T)), "bias", who.str() << ": mean relative error " << mean << " vs published RSE " << rse);
+  VF_CHECK(sd <= 1.15 * rse * (1.0 + 5.0 / std::sqrt(2.0 * T)), "spread", who.str() << ": std of relative error " << sd << " exceeds published RSE " << rse);
+  double md = 0; for (auto& t : trials) md += (t.est - t.paired) / dn; md /= T;
+  double vd = 0; for (auto& t : trials) { double r = (t.est - t.paired) / dn - md; vd += r * r; } vd /= std::max<long>(1, T - 1);
+  const double sdd = std::sqrt(vd);
+  if (!vf::env("C06_CALIB").empty()) fprintf(stderr, "CALIB deep type=%d shape=%d T=%ld mean/rse=%.4f sd/rse=%.4f md/rse=%.4f sdd/rse=%.4f\n", int(ty), shape, T, mean / rse, sd / rse, md / rse, sdd / rse);
+  VF_CHECK(std::fabs(md) <= 0.04 * rse + 5.0 * sdd / std::sqrt(static_cast<double>(T)), "paired-bias", who.str() << ": union estimate minus single-sketch estimate of the same stream averages " << md << " of n (std " << sdd << "), published RSE " << rse);
+  static const double nominal[] = {0.6827, 0.9545, 0.9973};
+  for (int s = 0; s < 3; ++s) {
+    long in = 0; for (auto& t : trials) in += (t.lb[s] <= dn && dn <= t.ub[s]);
+    const double cov = static_cast<double>(in) / T;
+    const double need = nominal[s] - 0.015 - 5.0 * std::sqrt(nominal[s] * (1 - nominal[s]) / T);
+    VF_CHECK(cov >= need, "coverage", who.str() << ": " << (s + 1) << "-sigma interval covers the truth in " << cov << " of trials, need " << need);
+  }
+  vf::nontrivial();
+  vf::count("trials", static_cast<uint64_t>(T));
+  vf::label("family:hll-union-deep-registers");
+}
+
+rc::Gen<Case> gen_deep() {
+  using namespace vf;
+  return make_case({{"type", range(0, 2)}, {"order", range(0, 1)}, {"shape", range(0, 2)}, {"base", range(1, 1 << 30)}}, rc::gen::just(std::vector<Op>{}));
+}
+
 }  // namespace
 
 int main(int argc, char** argv) {
   return vf::main_driver(argc, argv, "C06", "c06_accuracy",
                          "accuracy (statistical, weak): case = (family Theta/Tuple/HLL/CPC, lg_k, n in {k/2,2k,16k,128k}, p, single sketch or union result, HLL type) "
                          "evaluated over T independent trials on disjoint key ranges; asserts bias <= 0.15 RSE + 5 RSE/sqrt(T), spread <= 1.15 RSE (1 + 5/sqrt(2T)), "
-                         "coverage >= nominal - 1.5 points - 5 sigma; non-trivial = estimation mode; distinct = distinct case text",
-                         {{"accuracy", gen, prop, 1.0}});
+                         "coverage >= nominal - 1.5 points - 5 sigma; sub deep = HLL unions of n = 2^18 streams folded down to lg_k 4 (register values beyond 15); "
+                         "non-trivial = estimation mode; distinct = distinct case text",
+                         {{"accuracy", gen, prop, 1.0}, {"deep", gen_deep, prop_deep, 0.05}});
 }
